@@ -377,6 +377,9 @@ def soak_main() -> None:
 
 
 def run(ctx: Ctx) -> None:
+    # the operations documented as thread-safe, under every single pre-emption by the other thread (props/threadsfam.py, Trace_Threads.tla)
+    from props import threadsfam
+    threadsfam.run(ctx, 'C02')
     rng = random.Random(ctx.seed * 7919 + 2)
     datas: List[bytes] = []
     small = enum_small(ctx.pick(4, 6))
